@@ -63,6 +63,8 @@ class Gen:
     def rexpr(self, scope, depth=0) -> str:
         r = self.r
         reals = scope['real']
+        if r.random() < self.p.get('consts', 0.0):
+            return f'({self.lit()} {r.choice(["+", "*", "-", "/"])} {r.choice(["3", "0.75", "1.5", "7", "0.3"])})'
         c = r.random()
         if depth >= 2 or c < 0.3:
             if reals and r.random() < 0.75:
@@ -126,6 +128,23 @@ class Gen:
         pad = '    ' * ind
         c = r.random()
         deep = depth >= p['maxdepth']
+        if r.random() < p.get('copies', 0.0) and scope['real']:
+            # a plain copy, and sometimes an immediate redefinition of its source
+            src = r.choice(scope['real'])
+            v = self.fresh()
+            out = [f'{pad}{v} = {src}']
+            if src not in scope['ro'] and r.random() < 0.6:
+                out.append(f'{pad}{src} = {self.rexpr(scope)}')
+            scope['real'].append(v)
+            return out
+        if r.random() < p.get('dead', 0.0):
+            k = r.random()
+            if k < 0.4:
+                return [f'{pad}{self.fresh("d")} = {self.rexpr(scope)}']
+            if k < 0.7:
+                return [f'{pad}if {r.choice(["False", "1 > 2", "True", "0.5 < 1"])}:',
+                        f'{pad}    {self.fresh("d")} = {self.rexpr(scope)}']
+            return [f'{pad}assert {r.choice(["True", "1 < 2", self.bexpr(scope)])}']
         # reassign or define a real
         if c < 0.3 or deep:
             if scope['real'] and r.random() < 0.6:
